@@ -538,4 +538,181 @@ theorem inverse_eq_inverseTensor {ν : Type} (names : ν × ν) (m : Matrix α) 
           | ok o => cases o <;> rfl
 
 end Inv
+/-! ### Square views: the branches taken -/
+
+section S
+variable [Add α] [Sub α] [Mul α] [Zero α] [One α]
+
+theorem detView_square (n : Nat) (g : Nat → Nat → α) :
+    detView ⟨n, n, g⟩ = if n = 0 then none else if n = 1 then some (g 0 0)
+      else some (detModel n g) := by
+  rw [detView_eq]
+  simp
+
+theorem detView_nonsquare (v : View α) (h : v.rows ≠ v.cols) : detView v = none := by
+  rw [detView_eq]; simp [h]
+
+theorem maskView_square (n : Nat) (g : Nat → Nat → α) (i j : Nat) (hn : 2 ≤ n) (hi : i < n) (hj : j < n) :
+    maskView ⟨n, n, g⟩ i j = some ⟨n - 1, n - 1, fun r c => g (maskIdx i 1 r) (maskIdx j 1 c)⟩ := by
+  unfold maskView
+  simp only [clipLen_one i _ hi, clipLen_one j _ hj]
+  have : ¬ (n - 1 = 0) := by omega
+  simp [this]
+
+theorem minorTensor_square (n : Nat) (g : Nat → Nat → α) (i j : Nat) (hn : 2 ≤ n) (hi : i < n)
+    (hj : j < n) :
+    minorTensor ⟨n, n, g⟩ i j
+      = .ok (detView ⟨n - 1, n - 1, fun r c => g (maskIdx i 1 r) (maskIdx j 1 c)⟩) := by
+  unfold minorTensor
+  have h1 : ((n == 1) || (n == 1)) = false := by simp; omega
+  have h2 : (n != n) = false := by simp
+  simp only [h1, h2, maskView_square n g i j hn hi hj]
+  rfl
+end S
+
+section I
+variable [Add α] [Sub α] [Mul α] [Div α] [Zero α] [One α] [NumOrd α]
+
+theorem inverseTensor_nonsquare {ν : Type} (names : ν × ν) (v : View α) (h : v.rows ≠ v.cols) :
+    inverseTensor names v = .ok none := by
+  unfold inverseTensor; simp [h]
+
+theorem inverseTensor_one {ν : Type} (names : ν × ν) (g : Nat → Nat → α) :
+    inverseTensor names ⟨1, 1, g⟩ = if NumOrd.eq (g 0 0) (0 : α) = true then .ok none
+      else .ok (some ⟨[1 / g 0 0], [(names.1, 1), (names.2, 1)],
+        computeStrides [(names.1, 1), (names.2, 1)]⟩) := by
+  unfold inverseTensor; simp
+
+theorem inverseTensor_square {ν : Type} (names : ν × ν) (n : Nat) (hn : 2 ≤ n) (g : Nat → Nat → α) :
+    inverseTensor names ⟨n, n, g⟩ = if NumOrd.eq (detModel n g) (0 : α) = true then .ok none
+      else match adjugateScaled n (detModel n g) (minorTensor ⟨n, n, g⟩) with
+        | .panic k => .panic k
+        | .ok none => .ok none
+        | .ok (some data) => .ok (some ⟨data, [(names.1, n), (names.2, n)],
+            computeStrides [(names.1, n), (names.2, n)]⟩) := by
+  unfold inverseTensor
+  have h1 : (n == 1) = false := by simp; omega
+  have h2 : (n != n) = false := by simp
+  have h3 : detView ⟨n, n, g⟩ = some (detModel n g) := by
+    rw [detView_square]
+    have : n ≠ 0 := by omega
+    have : n ≠ 1 := by omega
+    simp [*]
+  simp only [h1, h2, h3]
+  rfl
+end I
+/-! ### Totality and shape of the result -/
+
+section T
+variable [Add α] [Sub α] [Mul α] [Div α] [Zero α] [One α] [NumOrd α]
+
+theorem cofactorLoop_total (minor : Nat → Nat → Outcome (Option α)) (pairs : List (Nat × Nat))
+    (acc : List α) (h : ∀ ij ∈ pairs, ∃ o, minor ij.1 ij.2 = .ok o) :
+    ∃ o, cofactorLoop minor pairs acc = .ok o := by
+  induction pairs generalizing acc with
+  | nil => exact ⟨_, rfl⟩
+  | cons ij rest ih =>
+    obtain ⟨i, j⟩ := ij
+    obtain ⟨o, ho⟩ := h (i, j) (by simp)
+    simp only at ho
+    simp only [cofactorLoop, ho]
+    cases o with
+    | none => exact ⟨_, rfl⟩
+    | some x => exact ih _ (fun ij hij => h ij (by simp [hij]))
+
+theorem cofactorLoop_length (minor : Nat → Nat → Outcome (Option α)) (pairs : List (Nat × Nat))
+    (acc res : List α) (h : cofactorLoop minor pairs acc = .ok (some res)) :
+    res.length = acc.length + pairs.length := by
+  induction pairs generalizing acc with
+  | nil =>
+    simp only [cofactorLoop, Outcome.ok.injEq, Option.some.injEq] at h
+    subst h; simp
+  | cons ij rest ih =>
+    obtain ⟨i, j⟩ := ij
+    simp only [cofactorLoop] at h
+    split at h
+    · cases h
+    · cases h
+    · have := ih _ h
+      simp only [List.length_append, List.length_cons, List.length_nil] at this ⊢
+      omega
+
+theorem adjugateScaled_total (n : Nat) (det : α) (minor : Nat → Nat → Outcome (Option α))
+    (h : ∀ i j, i < n → j < n → ∃ o, minor i j = .ok o) :
+    ∃ o, adjugateScaled n det minor = .ok o := by
+  unfold adjugateScaled
+  obtain ⟨o, ho⟩ := cofactorLoop_total minor (indexPairs n n) []
+    (fun ij hij => h _ _ (mem_indexPairs n n ij hij).1 (mem_indexPairs n n ij hij).2)
+  rw [ho]
+  cases o <;> exact ⟨_, rfl⟩
+
+theorem adjugateScaled_length (n : Nat) (det : α) (minor : Nat → Nat → Outcome (Option α))
+    (res : List α) (h : adjugateScaled n det minor = .ok (some res)) : res.length = n * n := by
+  unfold adjugateScaled at h
+  split at h
+  · cases h
+  · cases h
+  · rename_i cof hc
+    simp only [Outcome.ok.injEq, Option.some.injEq] at h
+    subst h
+    rw [List.length_map, transposeSquare_length, cofactorLoop_length _ _ _ _ hc, indexPairs_length]
+    simp
+
+/-- `inverse_tensor` never panics (the `expect` on the mask and the other unwraps are dead):
+    all sizes, any element type. -/
+theorem inverseTensor_total {ν : Type} (names : ν × ν) (v : View α) :
+    ∃ o, inverseTensor names v = .ok o := by
+  obtain ⟨n, c, g⟩ := v
+  by_cases hsq : n = c
+  · subst hsq
+    by_cases h1 : n = 1
+    · subst h1
+      rw [inverseTensor_one]
+      split <;> exact ⟨_, rfl⟩
+    · by_cases h0 : n = 0
+      · subst h0
+        exact ⟨none, by simp [inverseTensor, detView_eq]⟩
+      · rw [inverseTensor_square names n (by omega) g]
+        split
+        · exact ⟨_, rfl⟩
+        · obtain ⟨o, ho⟩ := adjugateScaled_total n (detModel n g) (minorTensor ⟨n, n, g⟩)
+            (fun i j hi hj => ⟨_, minorTensor_square n g i j (by omega) hi hj⟩)
+          rw [ho]
+          cases o <;> exact ⟨_, rfl⟩
+  · exact ⟨none, inverseTensor_nonsquare names _ hsq⟩
+
+/-- The result of `inverse_tensor` is a well-formed tensor with the input's shape — in particular
+    its dimension names are the input's, in the same order. -/
+theorem inverseTensor_shape {ν : Type} (names : ν × ν) (v : View α) (t : Tensor ν α)
+    (h : inverseTensor names v = .ok (some t)) :
+    t.shape = [(names.1, v.rows), (names.2, v.cols)] ∧ t.strides = computeStrides t.shape ∧
+      t.data.length = v.rows * v.cols := by
+  obtain ⟨n, c, g⟩ := v
+  by_cases hsq : n = c
+  · subst hsq
+    by_cases h1 : n = 1
+    · subst h1
+      rw [inverseTensor_one] at h
+      split at h
+      · cases h
+      · simp only [Outcome.ok.injEq, Option.some.injEq] at h
+        subst h
+        exact ⟨rfl, rfl, rfl⟩
+    · by_cases h0 : n = 0
+      · subst h0
+        simp [inverseTensor, detView_eq] at h
+      · rw [inverseTensor_square names n (by omega) g] at h
+        split at h
+        · cases h
+        · split at h
+          · cases h
+          · cases h
+          · rename_i data hd
+            simp only [Outcome.ok.injEq, Option.some.injEq] at h
+            subst h
+            exact ⟨rfl, rfl, adjugateScaled_length _ _ _ _ hd⟩
+  · rw [inverseTensor_nonsquare names _ hsq] at h
+    cases h
+
+end T
 end EasyMl.Det
